@@ -362,8 +362,13 @@ pub fn random_taxonomy(rng: &mut Rng) -> (Grid, Vec<String>) {
         let a = names[rng.below(names.len())].clone();
         let b = names[rng.below(names.len())].clone();
         let mut parts = vec![a, b];
-        if rng.chance(1, 3) {
-            parts.push(names[rng.below(names.len())].clone());
+        // mostly 2-3 parts, now and then up to 7
+        let extra = if rng.chance(1, 4) { 1 + rng.below(5) } else { rng.below(2) };
+        for _ in 0..extra {
+            let p = names[rng.below(names.len())].clone();
+            if !p.contains('-') {
+                parts.push(p);
+            }
         }
         let cname = parts.join("-");
         if !names.contains(&cname) {
